@@ -4,7 +4,7 @@
 # then runs the given checks (default: the property's own) against the patched worktree. Writes /verif/seeded/<Cnn>-<n>/.
 id="$1"; n="$2"; shift 2
 checks=("$@"); [ ${#checks[@]} -eq 0 ] && checks=("$id")
-dst="/verif/seeded/$id-$n"; src="/tmp/seed-$id/out/$n"
+dst="/verif/seeded/$id-$n"; src="/tmp/seed-$id/out/$n"; [ "$n" -ge 3 ] && src="/tmp/seed2-$id/out/$((n-2))"
 mkdir -p "$dst"
 if [ -f "$src/patch.diff" ]; then cp "$src/patch.diff" "$src/meta.json" "$dst/" 2>/dev/null; cp "$src/demo_test.py" "$dst/demo_test.py"; fi
 [ -f "$dst/patch.diff" ] || { echo "no patch for $id-$n"; exit 2; }
